@@ -168,8 +168,8 @@ func init() {
 
 // structFields implements vpStructFields(dst interface{}, tag string) []vpFieldRef: the exported
 // fields of the struct dst points to, each with its key under the given struct tag (the tag's name
-// part, else the Go field name), its Go name, its kind (0 string, 1 int, 2 bool, 3 other) and a
-// typed pointer to it. Reflection-driven decoders (mapstructure) are modelled in ordinary Go on
+// part, else the Go field name), its Go name, the whole tag value, its kind (0 string, 1 int, 2 bool, 4 []byte, 3 other)
+// and a typed pointer to it. Reflection-driven decoders (mapstructure) are modelled in ordinary Go on
 // top of this list.
 func (e *Engine) structFields(args []Value) Value {
 	dst, ok := args[0].(Iface)
@@ -207,7 +207,7 @@ func (e *Engine) structFields(args []Value) Value {
 			key = tv
 		}
 		kind := 3
-		var ps, pi, pb Value = Ptr{}, Ptr{}, Ptr{}
+		var ps, pi, pb, py Value = Ptr{}, Ptr{}, Ptr{}, Ptr{}
 		p := base.Sub(i)
 		if b, ok := f.Type().Underlying().(*types.Basic); ok {
 			switch {
@@ -219,7 +219,13 @@ func (e *Engine) structFields(args []Value) Value {
 				kind, pb = 2, p
 			}
 		}
-		out = append(out, &StructV{F: []Value{ConstStr(key), ConstStr(f.Name()), smt.BV(uint64(kind), 64), ps, pi, pb}})
+		if sl, ok := f.Type().Underlying().(*types.Slice); ok {
+			if eb, ok := sl.Elem().Underlying().(*types.Basic); ok && eb.Kind() == types.Uint8 {
+				kind, py = 4, p
+			}
+		}
+		full := reflect.StructTag(st.Tag(i)).Get(tag)
+		out = append(out, &StructV{F: []Value{ConstStr(key), ConstStr(f.Name()), ConstStr(full), smt.BV(uint64(kind), 64), ps, pi, pb, py}})
 	}
 	return e.newSliceVals(out)
 }
